@@ -21,7 +21,7 @@ def flag_property(code):
     return code.split("-")[0]
 
 
-ALLV = "fresh,reloaded,second,reloaded2,multi,multi"
+ALLV = "fresh,reloaded,second,reloaded2,multi,multi,sharedctx"
 # property -> (batches, antecedent marks, what makes a trace non-trivial)
 # batch = (profile, cases at quick tier, extra harness arguments)
 PLAN = {
@@ -256,7 +256,7 @@ def evaluate(prop, batches, marks, rule, thorough_factor=None):
     results = []
     with cf.ThreadPoolExecutor(max_workers=6) as ex:
         mtla, mcfg = MODEL[tier]
-        fm = ex.submit(tlc, None, mtla, mcfg, os.path.join(scratch(), "model"), "8", 3000)
+        fm = ex.submit(tlc, None, mtla, mcfg, os.path.join(scratch(), "model"), "8", 3000, heap="8g")
         futs = [ex.submit(run_batch, gh, *j) for j in jobs]
         for f in futs:
             results.append(f.result())
